@@ -1,0 +1,90 @@
+//go:build verif
+
+// Contracts for the deductive verifier in /verif (gocv). Comment-only file. Keys are abstract (bytes: key).
+
+package latch
+
+// ---- field-transition invariants: checked at every store to the field anywhere in this package ----------------------
+
+// a holder is never overwritten by another holder: a slot key passes from one lock to the next only through nil
+//@ field node.value transition C17: old == nil || new == nil || old == new
+// the published commit timestamp of a key never decreases
+//@ field node.maxCommitTS transition C17: new >= old
+// staleness is sticky
+//@ field Lock.isStale transition C17: old ==> new
+// slots are taken and given back one at a time, in order
+//@ field Lock.acquiredCount transition C17: new == old + 1 || new == old - 1 || new == old
+
+// the slot's list, its length and its queue are only touched with the slot's mutex held (checked in the functions under contract)
+//@ guarded latch.queue by Mutex C17
+//@ guarded latch.count by Mutex C17
+//@ guarded latch.waiting by Mutex C17
+
+// ---- per-slot operations -----------------------------------------------------------------------------
+
+//@ func findNode
+//@   prop C17
+//@   bytes: key
+//@   modifies nothing
+//@   ensures found: result != nil ==> result.key == key
+
+//@ func (l *Lock) isLocked
+//@   prop C17
+//@   bytes: key
+//@   ensures result == (!l.isStale && l.acquiredCount != len(l.requiredSlots))
+
+// acquireSlot (find is the node of the requested key in the slot's list, nil if there is none):
+// success: the lock becomes the holder of exactly this key (the node was free or new) and advances by one slot;
+// stale: exactly when the key was released with a commit timestamp above the requester's start timestamp;
+// locked: the holder is kept, the requester is queued last, nothing else changes.
+//@ func (latches *Latches) acquireSlot
+//@   prop C17
+//@   bytes: key
+//@   requires lock != nil && 0 <= lock.acquiredCount && lock.acquiredCount < len(lock.requiredSlots) && len(lock.keys) == len(lock.requiredSlots)
+//@   ensures success: result == acquireSuccess ==> lock.acquiredCount == old(lock.acquiredCount) + 1
+//@   ensures holder: result == acquireSuccess && find != nil ==> find.value == lock && old(find.value) == nil && find.maxCommitTS <= lock.startTS
+//@   ensures unchanged: result != acquireSuccess ==> lock.acquiredCount == old(lock.acquiredCount)
+//@   ensures stale: (result == acquireStale) == (find != nil && find.maxCommitTS > lock.startTS)
+//@   ensures staleflag: result == acquireStale ==> lock.isStale && lock.acquiredCount == old(lock.acquiredCount)
+//@   ensures locked: result == acquireLocked ==> find != nil && find.value != nil && find.value == old(find.value) && lock.acquiredCount == old(lock.acquiredCount) &&
+//@       len(latch.waiting) == old(len(latch.waiting)) + 1 && latch.waiting[len(latch.waiting)-1] == lock
+//@   ensures kind: result == acquireSuccess || result == acquireStale || result == acquireLocked
+//@   ensures keymatch: find != nil ==> find.key == old(lock.keys[lock.acquiredCount])
+
+// acquire takes the slots strictly in index order and stops at the first slot that is not granted.
+//@ func (latches *Latches) acquire
+//@   prop C17
+//@   bytes: key
+//@   requires lock != nil && 0 <= lock.acquiredCount && lock.acquiredCount <= len(lock.requiredSlots) && len(lock.keys) == len(lock.requiredSlots)
+//@   loop 1 invariant 0 <= lock.acquiredCount && lock.acquiredCount <= len(lock.requiredSlots) && len(lock.keys) == len(lock.requiredSlots)
+//@   ensures success: result == acquireSuccess ==> lock.acquiredCount == len(lock.requiredSlots)
+//@   ensures stale: result == acquireStale ==> lock.isStale
+
+// releaseSlot gives back the key of the last acquired slot (find is its node):
+// published: the key's commit timestamp becomes max(old, lock.commitTS) and the releasing lock stops being the holder;
+// nowaiter: nil is returned only if no queued lock is waiting for exactly this key (no lost wake-up);
+// first: a returned lock is the first one in the queue that waits for this key; it is removed, the others keep their order;
+// handover: the returned lock is marked stale exactly when the key's commit timestamp exceeds its start timestamp, and then
+//           it becomes the holder and advances; otherwise the key is left free for it to re-acquire.
+//@ func (latches *Latches) releaseSlot
+//@   prop C17
+//@   bytes: key
+//@   may-panic
+//@   requires lock != nil && 0 < lock.acquiredCount && lock.acquiredCount <= len(lock.requiredSlots) && len(lock.keys) == len(lock.requiredSlots)
+//@   requires forall i int :: 0 <= i && i < len(lock.requiredSlots) ==> 0 <= lock.requiredSlots[i] && lock.requiredSlots[i] < len(latches.slots)
+//@   requires notqueued: forall s *latch, i int :: 0 <= i && i < len(s.waiting) ==> s.waiting[i] != lock && s.waiting[i] != nil
+//@   loop 1 invariant scan: 0 <= idx && idx <= len(latch.waiting) && forall i int :: 0 <= i && i < idx ==> latch.waiting[i].keys[latch.waiting[i].acquiredCount] != key
+//@   loop 1 invariant frame: find.value == nil && find.maxCommitTS == prev(find.maxCommitTS) && lock.acquiredCount == prev(lock.acquiredCount)
+//@   ensures count: lock.acquiredCount == old(lock.acquiredCount) - 1
+//@   ensures published: find.maxCommitTS == max(old(find.maxCommitTS), lock.commitTS) && (find.value == nil || find.value == result)
+//@   ensures nowaiter: result == nil ==> forall i int :: 0 <= i && i < len(latch.waiting) ==> latch.waiting[i].keys[latch.waiting[i].acquiredCount] != key
+//@   ensures first: result != nil ==> len(latch.waiting) == old(len(latch.waiting)) - 1 && exists j int :: 0 <= j && j < old(len(latch.waiting)) && result == old(latch.waiting[j]) &&
+//@       old(latch.waiting[j].keys[latch.waiting[j].acquiredCount]) == key &&
+//@       (forall i int :: 0 <= i && i < j ==> old(latch.waiting[i].keys[latch.waiting[i].acquiredCount]) != key && latch.waiting[i] == old(latch.waiting[i])) &&
+//@       (forall i int :: j <= i && i < len(latch.waiting) ==> latch.waiting[i] == old(latch.waiting[i+1]))
+//@   ensures handover: result != nil && result != lock ==> (find.maxCommitTS > result.startTS ==> result.isStale && find.value == result && result.acquiredCount == old(result.acquiredCount) + 1) &&
+//@       (find.maxCommitTS <= result.startTS ==> find.value == nil && result.acquiredCount == old(result.acquiredCount) && result.isStale == old(result.isStale))
+
+// (release, the loop around releaseSlot, is not under contract: carrying releaseSlot's precondition "the releasing lock is
+// queued nowhere and queues hold no nil" through the loop needs an ownership invariant over all slots' queue arrays; its
+// stores are still checked against the field-transition invariants above.)
